@@ -138,6 +138,10 @@ def gen_id(r):
 
 def gen_persist(r, ncases, maxlen=60):
     ops = []
+    # several saves in flight at once (queued behind the database file lock), on one and on several scheduler threads
+    for k in range(3 if ncases < 100 else 20):
+        ops += ["#case ps parallel", "ps.open", f"ps.parallel n={r.range(3, 8)} seed={r.range(1, 99)} procs={r.pick([1, 1, 0])} hold_ms={r.range(10, 60)}",
+                f"ps.parallel n={r.range(3, 8)} seed={r.range(1, 99)} procs={r.pick([1, 0])} hold_ms={r.range(10, 60)}"]
     for _ in range(ncases):
         ops.append("#case ps")
         ops.append("ps.open")
